@@ -345,6 +345,11 @@ func (u *Unit) verify() {
 			u.errorf("%s: anchor %q was never reached (no such program point)", spec.Name, at.Where)
 		}
 	}
+	// frames stated as "preserves": the goals collected at the returns, one obligation per class
+	for _, c := range sortedKeys(u.frameAcc) {
+		top := newState()
+		u.addObl(top, "frame", "preserves:"+c, And(u.frameAcc[c]...), nil).Text = "pre-existing objects of class " + c + " are unchanged at every return"
+	}
 }
 
 // checkReturn emits the postcondition and frame obligations for one return site of the unit.
@@ -527,7 +532,11 @@ func (u *Unit) checkReturn(f *Frame, rst *State, rets []Val) {
 			cur := u.heapGet(rst, c, srt)
 			init := u.genConst(0, c, srt)
 			if cur.S != init.S {
-				u.addObl(rst, "frame", "preserves:"+c, u.frameGoal(c, init, cur), nil)
+				// one obligation per class for the whole unit (not one per return): collected here, emitted after the run
+				if u.frameAcc == nil {
+					u.frameAcc = map[string][]Term{}
+				}
+				u.frameAcc[c] = append(u.frameAcc[c], Implies(rst.pc, u.frameGoal(c, init, cur)))
 			}
 		}
 		// 2. classes this unit never touches itself: no callee on the way may forget them
@@ -739,6 +748,9 @@ func SolveAll(obls []*Obligation, timeoutMs int, need int) {
 				nd = 1
 				if tmo > 2000 {
 					tmo = 2000
+				}
+				if o.Info && tmo > 800 { // reachability probes are informational
+					tmo = 800
 				}
 			}
 			r, _ := Solve(o.Query, id, tmo, o.Models, nd)
